@@ -140,6 +140,7 @@ def run(chk):
                        "repository's DEFINITIONS table", "array literals above 4096 elements cannot run (operand stack size); only their "
                        "compilation is judged"]
     chk.floor = 300
+    chk.rule += '; plus captured variables summed over two enclosing levels, direct && / || / filter-action long jumps, backward long jumps'
     # (iii) round trip
     r = core.run_one("", {"full": 1} if not quick else {}, cmd="OPCODES", timeout=1200)
     if "checked" not in r:
